@@ -307,7 +307,14 @@ func (g *FuncGen) applyContract(callee *ssa.Function, ct *Contract, sf *SpecFile
 		if lab == "" {
 			lab = fmt.Sprintf("%d", i+1)
 		}
-		g.oblig("requires", ckey+":"+lab, cxPre.boolTerm(r.E), pos, r.Props, r.Src)
+		cj := cxPre.conjuncts(r.E)
+		for ci, t := range cj {
+			l2 := lab
+			if len(cj) > 1 {
+				l2 = fmt.Sprintf("%s.%d", lab, ci+1)
+			}
+			g.oblig("requires", ckey+":"+l2, t, pos, r.Props, r.Src)
+		}
 	}
 	// effects
 	var eff map[string]bool
@@ -338,7 +345,7 @@ func (g *FuncGen) applyContract(callee *ssa.Function, ct *Contract, sf *SpecFile
 		cxPost.vars[rn[i]] = sval{t: r, typ: sig.Results().At(i).Type(), kind: "val"}
 	}
 	for _, e := range ct.Ensures {
-		g.assume(cxPost.boolTerm(e.E))
+		g.assume(cxPost.assumeTerm(e.E))
 	}
 	if ct.Extern || ct.Trusted {
 		g.assumptions["trusted contract assumed for "+ckey] = true
@@ -368,7 +375,7 @@ func (g *FuncGen) havocWithFrame(eff map[string]bool, locs []location, pre *Stat
 				excl = append(excl, fmt.Sprintf("(not %s)", l.member("fr!r")))
 			}
 		}
-		body := fmt.Sprintf("(=> %s (= (select %s fr!r) (select %s fr!r)))", and(append([]string{fmt.Sprintf("(< fr!r %s)", preAlloc)}, excl...)...), nw, old)
+		body := fmt.Sprintf("(=> %s (= (select %s fr!r) (select %s fr!r)))", and(append([]string{existedAt("fr!r", preAlloc)}, excl...)...), nw, old)
 		g.assume(fmt.Sprintf("(forall ((fr!r Int)) (! %s :pattern ((select %s fr!r))))", body, nw))
 	}
 	if eff["alloc"] {
@@ -492,11 +499,11 @@ func (g *FuncGen) execBuiltin(b *ssa.Builtin, c *ssa.CallCommon, v ssa.Value, po
 		case *types.Basic:
 			g.vals[v] = g.def("v:"+v.Name(), "Int", fmt.Sprintf("(strlen %s)", x))
 		case *types.Map:
-			g.sc.declare("maplen", "(declare-fun maplen (Int Int) Int)")
-			n := g.declare("maplen", "Int")
-			g.assume(fmt.Sprintf("(>= %s 0)", n))
-			g.vals[v] = n
-			g.assumptions["len(map) is an arbitrary non-negative integer"] = true
+			dom, _ := g.sc.mapComps(t)
+			d := g.defConst("mdom", "(Array "+g.sc.sortOf(t.Key())+" Bool)", fmt.Sprintf("(select %s %s)", g.get(g.st, dom), x))
+			lt, facts := g.sc.mapLen(g.sc.sortOf(t.Key()), d)
+			g.assumeAll(facts)
+			g.vals[v] = g.def("v:"+v.Name(), "Int", fmt.Sprintf("(ite (= %s 0) 0 %s)", x, lt))
 		case *types.Chan:
 			n := g.declare("chanlen", "Int")
 			g.assume(fmt.Sprintf("(>= %s 0)", n))
@@ -528,7 +535,11 @@ func (g *FuncGen) execBuiltin(b *ssa.Builtin, c *ssa.CallCommon, v ssa.Value, po
 		k := g.val(c.Args[1])
 		dom, _ := g.sc.mapComps(mt)
 		d := g.get(g.st, dom)
-		g.update(dom, fmt.Sprintf("(store %s %s (store (select %s %s) %s false))", d, m, d, m, k))
+		ks := g.sc.sortOf(mt.Key())
+		od := g.defConst("mdom", "(Array "+ks+" Bool)", fmt.Sprintf("(select %s %s)", d, m))
+		nd := g.defConst("mdom", "(Array "+ks+" Bool)", fmt.Sprintf("(store %s %s false)", od, k))
+		g.assumeAll(g.sc.mapLenStore(ks, od, nd, k, false))
+		g.update(dom, fmt.Sprintf("(store %s %s %s)", d, m, nd))
 	case "close":
 		// closing a channel: no modelled effect
 	case "print", "println":
@@ -667,9 +678,8 @@ func (g *FuncGen) checkExit(res []string, pos token.Pos) {
 		hcx := *cx
 		hcx.locals = true
 		hcx.at = g.cur
-		t := hcx.boolTerm(h.E)
-		g.oblig("hint", h.Name, t, pos, h.Props, h.Src)
-		g.assume(t)
+		g.oblig("hint", h.Name, hcx.boolTerm(h.E), pos, h.Props, h.Src)
+		g.assume(hcx.assumeTerm(h.E))
 	}
 	for i, e := range g.c.Ensures {
 		lab := e.Name
@@ -679,7 +689,14 @@ func (g *FuncGen) checkExit(res []string, pos token.Pos) {
 		if g.retStates > 1 {
 			lab = fmt.Sprintf("%s@ret%d", lab, g.retStates)
 		}
-		g.oblig("ensures", lab, cx.boolTerm(e.E), pos, e.Props, e.Src)
+		cj := cx.conjuncts(e.E)
+		for ci, t := range cj {
+			l2 := lab
+			if len(cj) > 1 {
+				l2 = fmt.Sprintf("%s.%d", lab, ci+1)
+			}
+			g.oblig("ensures", l2, t, pos, e.Props, e.Src)
+		}
 	}
 	// frame: every component changed since entry is unchanged outside the modifies locations
 	cxE := g.newSpecCtx(g.entry, g.entry)
@@ -705,7 +722,7 @@ func (g *FuncGen) checkExit(res []string, pos token.Pos) {
 			}
 		}
 		body := fmt.Sprintf("(forall ((fr!r Int)) (=> %s (= (select %s fr!r) (select %s fr!r))))",
-			and(append([]string{fmt.Sprintf("(< fr!r %s)", entryAlloc)}, excl...)...), g.st.m[k], g.get(g.entry, k))
+			and(append([]string{existedAt("fr!r", entryAlloc)}, excl...)...), g.st.m[k], g.get(g.entry, k))
 		flab := k
 		if g.retStates > 1 {
 			flab = fmt.Sprintf("%s@ret%d", k, g.retStates)
@@ -750,10 +767,12 @@ func (g *FuncGen) execGhost(at string, cx *SpecCtx) {
 			n.vars[bv.Name] = sval{t: name, kind: "int"}
 			var ax []string
 			n.axioms = &ax
+			g.sc.Quant++
 			v := n.eval(gs.Value)
+			g.sc.Quant--
 			body := fmt.Sprintf("(= (select %s %s) %s)", N, name, v.t)
 			if len(ax) > 0 {
-				body = fmt.Sprintf("(=> %s %s)", and(ax...), body)
+				body = and(append(ax, body)...)
 			}
 			g.assume(fmt.Sprintf("(forall ((%s Int)) (! %s :pattern ((select %s %s))))", name, body, N, name))
 			g.update(loc.comp, fmt.Sprintf("(store %s %s %s)", g.get(g.st, loc.comp), loc.ref, N))
